@@ -79,7 +79,7 @@ def okLoop (ch : Checks) : Nat → List (String × GVal) → List String → Lis
     | .assign x v :: rest => (!ch.cmp || exprOk G v) && okLoop ch k G (x :: bound) rest
     | .tupleAssign xs es :: rest => (!ch.cmp || exprsOk G es) && okLoop ch k G (xs ++ bound) rest
     | .augAssign _ _ _ :: _ => true      -- refused by the (repaired) translator
-    | .opaque :: _ => true               -- no Python semantics in the model
+    | .unhandled :: _ => true             -- no Python semantics in the model
     | .retNone :: _ => true              -- refused
     | .skip :: rest => okLoop ch k G bound rest
 
